@@ -87,7 +87,7 @@ REQUIRED_PROBES = {
             "teeth_ratio_observed"],
     "C09": ["reconnect_same_pair", "connect_steals_both", "connect_steals_one", "disconnect_unlinked", "link_op_refused_by_live_borrow", "read_through_own_mutable_guard", "write_while_partner_mutably_borrowed"],
     "C13": ["relay_competing_commands", "newest_not_at_side1", "relayed_two_hops", "device_pulls_followed_command"],
-    "C20": ["actuator_sees_nothing", "pid_wrapper_fed", "pid_wrapper_drives_motor", "inner_writes_terminal_from_update"],
+    "C20": ["actuator_sees_nothing", "pid_wrapper_fed", "pid_wrapper_drives_motor", "inner_writes_terminal_from_update", "encoder_terminal_follows_getter"],
     "C04": ["time_shift_twin", "scaling_twin", "present_after_reset", "recovery_checked", "composed_twin"],
     "C05": ["err_then_2_present", "present_after_reset", "absent_deletion_twin", "recovery_checked"],
     "C10": ["time_shift_twin", "misdim_panic", "err_then_2_present", "composed_twin"],
@@ -365,7 +365,22 @@ def bisect_death(prop, tier, seed, binary, first):
         r2 = run([binary, "replay", dest])
         sigs = [l.split("signature=")[1].split(" detail=")[0] for l in r2.stdout.splitlines() if l.startswith("REPRODUCED") and ("signature=%s|" % prop) in l]
         if r2.returncode != 1 or not sigs:
-            harness_error("run %d kills the batch only together with earlier runs; single replay exits %s (%s)" % (culprit, r2.returncode, dest))
+            # no single run dies or fails on its own: the heap is corrupted by the runs together. The
+            # single-worker batch over runs 0..=culprit is deterministic, so THAT is the replay: it must
+            # kill the process again, in a fresh process, now.
+            if not dies(batch(0, culprit + 1)):
+                harness_error("runs 0..=%d killed a single-worker batch once but not twice (%s)" % (culprit, dest))
+            sig = "%s|process_death|memory_corruption_across_runs" % prop
+            dest = os.path.join(dest_dir, "%s_process_death-seed%d-runs0to%d.range" % (prop, seed, culprit))
+            open(dest, "w").write("# the simulator process is killed (abort / segfault) while executing runs 0..=%d of this batch in ONE worker;\n"
+                                  "# no single run of them does it alone (memory corrupted in one run, touched in a later one). Replay:\n"
+                                  "#   %s batch --prop %s --tier %s --seed %d --workers 1 --from 0 --to %d   (must be killed by a signal)\n"
+                                  "prop=%s\ntier=%s\nseed=%d\nfrom=0\nto=%d\nexpect=%s\n" % (culprit, binary, prop, tier, seed, culprit + 1, prop, tier, seed, culprit + 1, sig))
+            lines = ["VIOLATION property=%s replay=%s" % (prop, dest),
+                     "  signature=%s detail=runs 0..=%d kill a single-worker simulator process (exit %s): memory corruption / undefined behaviour reached from safe calls" % (sig, culprit, first.returncode)]
+            res = dict(runs=culprit + 1, distinct_nontrivial=2, samples=[g.stdout], nontrivial_runs=culprit + 1, wall_batch_s=1.0, sim_seconds=0.0,
+                       faults_fired={}, reach_probes={}, counts={}, cells_reached=0, trace_xor="", trace_sum="", failing_runs=1, workers=1)
+            return dict(res=res, lines=lines, violations=1, known_hits=[], missing=[])
         open(dest, "w").write(g2.stdout + "".join("expect=%s\n" % x for x in sigs[:1]))
         lines = ["VIOLATION property=%s replay=%s" % (prop, dest),
                  "  signature=%s detail=run %d violates this oracle and, inside a batch, goes on to corrupt the heap and kill the process (exit %s)" % (sigs[0], culprit, first.returncode)]
@@ -629,7 +644,8 @@ def scan_accessors():
 
 
 SAFE_ROUTE_PROBES = [("from_unsafe", ["E0308", "E0277"]), ("into_unsafe", ["E0277"]), ("tuple_ctor", ["E0423", "E0603", "E0616"]),
-                     ("unsafe_borrow", ["E0133"]), ("from_ptr_safe", ["E0133"])]
+                     ("unsafe_borrow", ["E0133"]), ("from_ptr_safe", ["E0133"]),
+                     ("static_macro", ["E0133"]), ("static_rw_lock_macro", ["E0133"]), ("static_mutex_macro", ["E0133"])]
 
 
 def check_c16(tier, seed):
